@@ -95,13 +95,16 @@ func (c *Callback) check(b []byte) bool {
 		b = bytes.ToLower(b)
 	}
 
-	if (c.Contains != "" && bytes.Contains(b, c.contains())) &&
-		!(c.NotContains != "" && !bytes.Contains(b, c.notContains())) {
+	if c.NotContains != "" && bytes.Contains(b, c.notContains()) {
+		// output contains the "not contains" text, this callback must not fire
+		return false
+	}
+
+	if c.Contains != "" && bytes.Contains(b, c.contains()) {
 		return true
 	}
 
-	if (c.ContainsRe != nil && c.ContainsRe.Match(b)) &&
-		!(c.NotContains != "" && !bytes.Contains(b, c.notContains())) {
+	if c.ContainsRe != nil && c.ContainsRe.Match(b) {
 		return true
 	}
 
